@@ -348,6 +348,24 @@ def _tolist(t):
     return [conv(y) for y in a]
 
 
+class _TensorOperand(Exception):
+    pass
+
+
+def _tensor_fallback(opname, reflected):
+    def deco(f):
+        def g(self, o):
+            try:
+                return f(self, o)
+            except _TensorOperand:
+                t = self.as_tensor()
+                import operator
+                fn = getattr(operator, opname)
+                return fn(o, t) if reflected else fn(t, o)
+        return g
+    return deco
+
+
 class SymScalar:
     """python-level symbolic number returned by .item(); arithmetic stays symbolic, truth value forks"""
     __slots__ = ("v",)
@@ -357,15 +375,30 @@ class SymScalar:
 
     @staticmethod
     def _u(o):
+        if isinstance(o, torch.Tensor):
+            raise _TensorOperand()
         return o.v if isinstance(o, SymScalar) else o
 
+    def as_tensor(self):
+        v = self.v
+        intlike = S.is_bitlike(v) or (isinstance(v, S.Poly) and v.is_int)
+        return from_arr([v], torch.int64 if intlike else torch.float32, ())
+
+    @_tensor_fallback("add", False)
     def __add__(self, o): return wrap_scalar(S.add(self.v, self._u(o)))
+    @_tensor_fallback("add", True)
     def __radd__(self, o): return wrap_scalar(S.add(self._u(o), self.v))
+    @_tensor_fallback("sub", False)
     def __sub__(self, o): return wrap_scalar(S.sub(self.v, self._u(o)))
+    @_tensor_fallback("sub", True)
     def __rsub__(self, o): return wrap_scalar(S.sub(self._u(o), self.v))
+    @_tensor_fallback("mul", False)
     def __mul__(self, o): return wrap_scalar(S.mul(self.v, self._u(o)))
+    @_tensor_fallback("mul", True)
     def __rmul__(self, o): return wrap_scalar(S.mul(self._u(o), self.v))
+    @_tensor_fallback("truediv", False)
     def __truediv__(self, o): return wrap_scalar(S.div(self.v, self._u(o)))
+    @_tensor_fallback("truediv", True)
     def __rtruediv__(self, o): return wrap_scalar(S.div(self._u(o), self.v))
     def __neg__(self): return wrap_scalar(S.neg(self.v))
     def __abs__(self): return wrap_scalar(S.absv(self.v))
